@@ -11,7 +11,8 @@ Require Import Arith Lia List Bool ZArith QArith Qcanon.
 From TK Require Import Mat_Sums Mat_Core Mat_Qc Mat_EigSelect EigSelect Mat_EigSelect_Tie
                        Mds_Model Mds_Spec Mds_Exec Mds_Proof Mds_Proof_Solver Mds_Proof_Qc
                        Mds_Proof_Isomap Dijkstra_Spec Spectral_KyFan Mds_Proof_Optimal Mds_Proof_Rank
-                       Spectral_Randomized Mds_Spec_Wtol Mds_Proof_Randomized Mds_Exec_Wave2 Mds_Proof_OptimalClamped.
+                       Spectral_Randomized Mds_Spec_Wtol Mds_Model_Randomized Mds_Proof_Randomized Mds_Exec_Wave2
+                       Mds_Proof_OptimalClamped.
 Import ListNotations.
 Local Open Scope nat_scope.
 
